@@ -77,10 +77,11 @@ Spec == Init /\ [][Next]_vars
 \* one operation per crash trace: its crash state is PRE (0 pointer advances) or POST (1)
 AtMostOneFlip == T.maxflips >= 0 => flips <= T.maxflips
 
+\* Always true: exports the registers; harness/props/c16.py and c03.py require
+\* accepted = 1..Len(TraceLog) and report the first unexplained event otherwise.
 Post ==
-  /\ ndJsonSerialize(IOEnv.VERIF_OUT,
-        << [accepted |-> TLCGet(1), progress |-> TLCGet(2), ancestors |-> TLCGet(3)] >>)
-  /\ TLCGet(1) = 1..Len(TraceLog)
+  ndJsonSerialize(IOEnv.VERIF_OUT,
+     << [accepted |-> TLCGet(1), progress |-> TLCGet(2), ancestors |-> TLCGet(3), n |-> Len(TraceLog)] >>)
 
 Alias == [tid |-> tid, l |-> l, why |-> Culprits]
 =============================================================================
